@@ -49,7 +49,7 @@ func init() {
 			"while the finding alloc-bomb/state.Account is open the rig protects the machine: foreign bytes (cross-type, raw) are not offered to the state.Account decoder and integer rewrites inside account records avoid 2^20..2^62 (a Proposal's encoding parses as an account whose token-map length is the proposal's Unix time; the map decoder would pre-allocate ~100 GB); lying length headers stop at 256 MiB and then jump to 2^62; workers run under RLIMIT_AS 24 GiB",
 			"a violation does not end the run (decodes are independent): the run records up to 6 distinct new keys; the kernel shrinks and reports the first",
 		},
-		QuickRuns: 16000, QuickBudget: 50 * time.Second,
+		QuickRuns: 16000, QuickBudget: 45 * time.Second,
 		ThoroughRuns: 120000, ThoroughBudget: 17 * time.Minute,
 		RunsPerProcess: 2000,
 		Run:            run,
